@@ -40,7 +40,16 @@ def rule_helper(ctx, R):
             ctx.missing("H-ITEM", "BuildHelper::" + n)
             return
     # private helpers by role
-    offset = next((b for b in fn.values() if any(st["k"] == "assign" and st["rv"]["k"] == "binop" and st["rv"]["op"] == "Rem" for _, _, st in b.stmts())), None)
+    # the ring-offset function: the crate-local callee whose result indexes self.items
+    offset = None
+    for b_ in fn.values():
+        for s_ in Sites(lib, b_).calls:
+            if core.callee_base(s_["key"]) in ("core::ops::Index::index", "core::ops::IndexMut::index_mut") and m(F(Par(1), "items"), s_["args"][0]):
+                ix = s_["args"][1]
+                if ix[0] == "call" and isinstance(ix[1], str):
+                    cand = [x for x in fn.values() if ix[1] == core.strip_generics(x.path) or ix[1].endswith("::" + x.name)]
+                    if cand:
+                        offset = cand[0]
     capacity = next((b for b in fn.values() if m(C("alloc::vec::Vec::len", F(Par(1), "items")), _ret(lib, b)[0]) and b.arg_count == 1), None)
     if offset is None or capacity is None:
         ctx.missing("H-OFFSET", "ring offset / capacity functions of the helper")
